@@ -296,6 +296,10 @@ pub fn run_one(prop: &dyn Prop, stream: &[u32], tier: Tier, rendering: bool, fin
         Outcome::Fail(_) | Outcome::Known(..) if crate::rat::overflowed() => Outcome::Discard("rat-overflow"),
         o => o,
     };
+    if case.src.consumed() > stream.len() && stream.len() >= prop.stream_len(tier) {
+        // the decoder wanted more choices than a full-length stream holds (the rest decodes as zeros)
+        case.class("choice stream exhausted");
+    }
     let out = match out {
         Outcome::Fail(m) if std::env::var("VERIF_NOFAIL").is_ok() => {
             crate::calib::note("NOFAIL (failures turned into discards)", 1.0, || m.chars().take(300).collect());
